@@ -99,6 +99,9 @@ def r1_writers(chk: Check) -> None:
                 if isinstance(p_, ast.Attribute) and p_.attr == "get" and isinstance(parent(p_), ast.Call) and const_str(parent(p_).args[0]) in ("Content-Type", "content-type"):  # type: ignore[union-attr]
                     chk.ok("C15.R1", owner, construct, "Content-Type projection (not a credential)", owner.loc(n))
                     continue
+                if isinstance(p_, ast.Call) and p_.args and p_.args[0] is n and len(p_.args) >= 2 and (const_str(p_.args[1]) or "").lower() == "content-type" and isinstance(p_.func, ast.Name):
+                    chk.ok("C15.R1", owner, construct, f"Content-Type projection through {p_.func.id} (not a credential)", owner.loc(n))
+                    continue
                 if arm == "off":
                     chk.ok("C15.R1", owner, construct, "raw on the sanitize_output=False arm", owner.loc(n))
                 elif arm == "on":
